@@ -344,6 +344,28 @@ theorem c12_in_same_case_rule (c : Cfg) (toks : List LTok) (nm : List Rn) (tc tv
   · intro hin
     simp [fieldFilter, hname, hne', hidx, hcolon, hval, hnr, hin, fieldCase]
 
+/-- **A SeqQL range bound is the same term as a literal of the same text**: `parseRangeTerm` reads the bound with the
+composite-token reader and `parseSeqQLKeyword` - the very builders a keyword literal goes through - so for every value
+`X` (any runes, outer whitespace included, no wildcard) the bound is the single text term `lowerIf cs X`: verbatim code
+points, lower-cased by `unicode.ToLower` unless case sensitive; nothing is trimmed.  Hence `field:[X, X]` carries on
+both ends exactly the term of `field:X`, under the field's case rule (`fieldFilter` hands `tokenRange` the same
+`fieldCase` flag as the other value parsers - second part). -/
+theorem c12_range_bound_is_literal_term (cs : Bool) (toks rest : List LTok) (x : List Rn)
+    (hx : compositeToken toks = .ok (x, rest)) (hne : x ≠ []) (hnw : ∀ r, r ∈ x → r.cp ≠ wildcardCp) :
+    rangeTerm cs toks = .ok (⟨false, lowerIf cs x⟩, rest) ∧
+    (∀ dp field, fulltextFilter dp field .keyword cs toks = .ok (.leaf (.lit field [⟨false, lowerIf cs x⟩]), rest)) ∧
+    (∀ (c : Cfg) (toks' : List LTok) (nm : List Rn) (tc tv : LTok) (r' : List LTok),
+      compositeToken toks' = .ok (nm, tc :: tv :: r') → (nameBytes nm).isEmpty = false →
+      indexType c.mapping (nameBytes nm) ≠ .noop → kwIn tc [.colon] = true → kwIn tv [.empty] = false →
+      kwIn tv [.lbr, .lp] = true →
+      fieldFilter c toks' = tokenRange (nameBytes nm) (fieldCase c (nameBytes nm)) (tv :: r')) := by
+  have hk := SV.Tok.seqqlKeyword_plain cs x hne hnw
+  refine ⟨by simp [rangeTerm, hx, hk], fun dp field => by simp [fulltextFilter, hx, hk], ?_⟩
+  intro c toks' nm tc tv r' hname hne' hidx hcolon hval hr
+  have hne'' : nameBytes nm ≠ [] := by
+    intro h; rw [h] at hne'; simp at hne'
+  simp [fieldFilter, hname, hne'', hidx, hcolon, hval, hr, fieldCase]
+
 /-- **both query languages build the same term from the same text**: for a run of word runes (resp. any keyword value
 without wildcard) the SeqQL builders and the legacy `baseTokenBuilder` (`appendRuneInternal` rune by rune) end with
 the single text term `lowerIf cs runes` - the code points themselves when case sensitive, `unicode.ToLower` of each
@@ -623,6 +645,13 @@ theorem c12_x_case_flag :
     caseFlagOverride = ["caseSensitive := conf.CaseSensitive", "if fieldName == seq.TokenExists", "caseSensitive = true"] ∧
     appendRuneInternalBody = ["if !b.caseSensitive { r = unicode.ToLower(r) }", "b.term = utf8.AppendRune(b.term, r)"] := by
   decide
+
+/-- SeqQL range bounds go through `parseCompositeToken` and `parseSeqQLKeyword` (the only place that applies the case
+rule), the term is assigned only from that result, and no `strings.Trim*` touches a bound anywhere in token_range.go -/
+theorem c12_x_range_bounds :
+    rangeTermCalls = ["parseCompositeToken", "parseSeqQLKeyword"] ∧
+    rangeTermAssigns = ["term.Kind = TermText", "*term = terms[0]", "*term = Term{ Kind: TermText, Data: \"\", "] ∧
+    rangeTrimCalls = [] ∧ tokenRangeCalls = ["parseRangeTerm", "parseRangeTerm"] := by decide
 
 /-- the word-rune predicates of both text term builders are `IsLetter || IsNumber || '_' || '*'` (what
 `SV.Parser.isWordRune` transcribes: `r.letter || r.number || cp = 95 || cp = 42`), the lexer's token runes are
